@@ -232,6 +232,11 @@ pub fn run(ctx: &Ctx) {
             PairCase { a: Hex(expand_bytes(0xc12f, 32)), b: Hex(expand_bytes(0xc130, 32)), zp: Hex(expand_bytes(0xc131, 32)), zq0: Hex(expand_bytes(0xc132, 32)), zq1: Hex(expand_bytes(0xc133, 32)) },
         ]
     }, check_exact);
+    ctx.cold("cold_start_concurrent", "six threads of a fresh process compute their first pairing at the same moment", || {
+        let one = gen::hex32(&BigUint::one());
+        let zero = gen::hex32(&BigUint::zero());
+        vec![(0..6u64).map(|i| PairCase { a: Hex(expand_bytes(i ^ 0xc12a, 32)), b: Hex(expand_bytes(i ^ 0xc12b, 32)), zp: one.clone(), zq0: one.clone(), zq1: zero.clone() }).collect::<Vec<_>>()]
+    }, |steps: &Vec<PairCase>| par(steps, check_exact));
     ctx.cold("cold_start_bilinearity", "the in-library bilinearity identity as the first library operations of a fresh process", || vec![Bilin { a: Hex(expand_bytes(0xc134, 32)), b: Hex(expand_bytes(0xc135, 32)) }], check_bilinear);
 
     ctx.listed("exact_edge_g1_points", "P a boundary point of G1 (x next to 0, N, p, 2^256-p, powers of two; Montgomery x with all-ones / zero limbs; y with a leading zero byte), affine and Jacobian, against Q = [a]P2", || {
